@@ -48,7 +48,8 @@ StepPlan(e) ==
                  [] e.op = "sweep"     -> LET w == TL!Sweep(pl, e.a) IN [s |-> w.s, r |-> Len(w.visited), vis |-> w.visited]
         \* what C10 talks about: results, and the tasks in iteration order (the slot a task lives in is the implementation's business)
         Tasks(tr) == [q \in 1 .. Len(tr) |-> <<tr[q][2], tr[q][3]>>]
-    IN  IF e.r # res.r \/ Tasks(e.order) # res.s.abs \/ ~TL!Refines(res.s) \/ ~TL!FreeListOK(res.s)
+        \* (the model's own invariants are established by model checking; re-evaluating them on every step only pays for small capacities)
+    IN  IF e.r # res.r \/ Tasks(e.order) # res.s.abs \/ (Cap <= 8 /\ (~TL!Refines(res.s) \/ ~TL!FreeListOK(res.s)))
            \/ (e.op = "sweep" /\ (Tasks(e.vis) # pl.abs \/ ~TL!SweepVisitsAll(pl, e.a)))
         THEN Bad("plan differs from the model", [r |-> res.r, order |-> OrderTriples(res.s)], e)
         ELSE /\ pl' = res.s /\ l' = l + 1 /\ UNCHANGED <<rej, done, d1, d2, d4>> /\ UNCHANGED <<bav, arv, bsbuf, bswcur, bsrcur>>
